@@ -37,9 +37,10 @@ def _fail(o, stage, e):
   return o
 
 
-def quantize(model, recipe, cal_data=None, key=None, cal=None):
+def quantize(model, recipe, cal_data=None, key=None, cal=None, multi=None):
   """Returns an Outcome.  stage: 'load' (recipe refused), 'calibrate',
-  'quantize' (exception), or 'ok'."""
+  'quantize' (exception), or 'ok'.  multi: [(signature key, dataset), ...] for
+  models with several signatures (calibrated one after the other, resuming)."""
   L = env.lib()
   o = Outcome()
   try:
@@ -49,7 +50,11 @@ def quantize(model, recipe, cal_data=None, key=None, cal=None):
   o.qt = qt
   if cal is None and qt.need_calibration:
     try:
-      cal = qt.calibrate(cal_data, key)
+      if multi:
+        for k, ds in multi:
+          cal = qt.calibrate(ds, k, cal)
+      else:
+        cal = qt.calibrate(cal_data, key)
     except Exception as e:
       return _fail(o, 'calibrate', e)
   o.cal_snapshot = copy.deepcopy(cal)
